@@ -598,7 +598,14 @@ func (u *URI) updateBytes(newURI, buf []byte) []byte {
 		return buf
 	}
 
-	n := bytes.Index(newURI, bytestr.StrSlashSlash)
+	// absolute uri: "//authority..." or "scheme://authority..."; a "//" further inside (for example in the
+	// query string of a relative reference) does not make the reference absolute.
+	n := -1
+	if bytes.HasPrefix(newURI, bytestr.StrSlashSlash) {
+		n = 0
+	} else if scheme, rest := getScheme(newURI); len(scheme) > 0 && bytes.HasPrefix(rest, bytestr.StrSlashSlash) {
+		n = len(scheme) + 1
+	}
 	if n >= 0 {
 		// absolute uri
 		var b [32]byte
